@@ -132,8 +132,9 @@ def run(ctx):
         def eof_progs():
             r2 = random.Random(rng.getrandbits(48))
             for i in range(60 if quick else 600):
-                p_, src_ = gen.gen_eof_shape(random.Random(r2.getrandbits(48)))
-                yield p_, src_, ["-feof-support"]
+                p_, src_ = gen.gen_eof_shape(random.Random(r2.getrandbits(48)), reading_safe=True)
+                # (with -fstrict-done-token-generation DONE is never returned "immediately": end() has to report it itself)
+                yield p_, src_, ["-feof-support"] + (["-fstrict-done-token-generation"] if i % 3 == 2 else [])
         rd = c01.validate(ctx, eof_progs(), ["-O0", "-O3"] if quick else ["-O0", "-O1", "-O2", "-O3"], False, "c17", "c01_compiled_trace_is_a_reading", "Props.C01", 0)
     if rd is not None:
         ctx.coverage["reading_validated_with_end_of_input"] = {"cases": len(rd["cases"]), "certified": rd["okc"], "rejected": rd["nviol"]}
